@@ -468,7 +468,6 @@ def c_quad(q):
 COQ_FMT = {"nt": "NT", "nquads": "NQ", "turtle": "TTL", "trig": "TRIG", "xml": "XML", "trix": "TRIX",
            "json-ld": "JLD", "hext": "HEXT"}
 IDENTITY = ("trix", "json-ld", "hext")   # only used to describe / count cases, never by the check
-WIPING = ("nquads", "hext")
 
 
 class C12(Suite):
@@ -477,7 +476,7 @@ class C12(Suite):
     case_ty = "case"
     obs_ty = "list qset"
     kf = "kf"
-    kf_ids = {1: "F9", 2: "F12"}
+    kf_ids = {1: "F9"}
     corr = ("Graph.parse / Dataset.parse with NTParser, NQuadsParser, TurtleParser, TrigParser, RDFXMLParser, "
             "TriXParser, JsonLDParser, HextuplesParser")
     quick_n = 900
@@ -642,7 +641,7 @@ ASSUMPTIONS = [
     "BNode() / uuid4 never returns an id twice and never an id already in the store (the [fresh] hypotheses of Parse/Proofs.v)",
     "every blank-node label of a document also occurs as subject of one tag statement (documents of the suite are written that way); labels that occur in no statement position do not exist in these syntaxes",
     "TriX documents of the suite name every graph (an unnamed TriX graph is stored under a new blank-node name: C06)",
-    "which parser follows which label discipline (Parse/Model.v disc_of, wipes) is read off the code and re-established by every run of this check",
+    "which parser follows which label discipline (Parse/Model.v disc_of) is read off the code and re-established by every run of this check",
 ]
 RULE = ("a case is an initial store content plus 1-4 documents (syntax, target graph, statements over 1-3 labels out of 5, "
         "labels shaped like rdflib ids included) parsed one after the other; distinct by full content; non-trivial when a label "
